@@ -411,6 +411,10 @@ def adversarial(seed, sizes, tag="adv"):
             "target": (b"GET /" + b"a" * n + b" HTTP/1.1\r\n\r\n", "q", 0),
             "many": (b"GET / HTTP/1.1\r\n" + b"A: b\r\n" * (n // 6) + b"\r\n", "q", 0),
             "wsfirst": (b"HTTP/1.1 200 OK\r\n" + b" \t" * (n // 2) + b"A: b\r\n\r\n", "p", 16),
+            # indented lines that are dropped, before any header is stored (space-before-first + ignore-invalid)
+            "indentjunk": (b"HTTP/1.1 200 OK\r\n" + b" @\r\n" * (n // 4) + b"A: b\r\n\r\n", "p", 16 | 32),
+            "indentjunkq": (b"GET / HTTP/1.1\r\n" + b"\t@ x\n" * (n // 5) + b"\r\n", "q", 16 | 64),
+            "indentjunkc": (b"HTTP/1.1 200 OK\r\nbad: line here\r\n" + b" x y\r\n" * (n // 6) + b"\r\n", "p", 16 | 32),
             "partial": (b"GET /" + b"a" * n, "q", 0),
             "emptylines": (b"\r\n" * (n // 2) + b"GET / HTTP/1.1\r\n\r\n", "q", 0),
             "reason": (b"HTTP/1.1 200 " + b"r \t" * (n // 3) + b"\r\n\r\n", "p", 0),
